@@ -61,3 +61,38 @@ def run(pid, tier, seed, cov, violations, notes, V):
                 violations.append(("extracted %s block violates %s (TLC counterexample in the replay file)" % (mode, inv), rp))
             else:
                 notes.append("NOTE extracted %s block violates %s (owned by %s)" % (mode, inv, [q for q, s in OWN.items() if inv in s]))
+
+
+def forms_step(pid, tier, seed, cov, violations, notes, V):
+    """C10: the forwarding-macro table extracted from the source, checked by algo/OpForms.tla"""
+    ROOT, WORK = V.ROOT, V.WORK
+    gdir = os.path.join(WORK, "gen_forms_%s" % pid)
+    shutil.rmtree(gdir, ignore_errors=True)
+    os.makedirs(gdir)
+    p = subprocess.run([sys.executable, os.path.join(ROOT, "tools", "extract_forms.py"), os.path.join(V.REPO, "src"), gdir],
+                       stdout=subprocess.PIPE, stderr=subprocess.STDOUT, text=True)
+    if p.returncode != 0:
+        raise V.ToolError("forwarding-macro extraction failed: " + p.stdout)
+    meta = os.path.join(WORK, "opforms_%d" % os.getpid())
+    lib = ":".join([os.path.join(ROOT, "spec", "algo"), gdir])
+    cmd = ["timeout", "300", "java", "-Xmx2g", "-cp", V.TLC_CP, "-DTLA-Library=" + lib, "tlc2.TLC", "-workers", "1", "-metadir", meta, "-cleanup",
+           "-noGenerateSpecTE", "-config", "OpForms.cfg", "OpForms.tla"]
+    rc, out = V.run(cmd, cwd=os.path.join(ROOT, "spec", "algo"), timeout=400)
+    shutil.rmtree(meta, ignore_errors=True)
+    m = V.STATES_RE.findall(out)
+    gen, dist = (int(m[-1][0]), int(m[-1][1])) if m else (0, 0)
+    cov["states"] += dist
+    cov["transitions"] += gen
+    ok = "No error has been found" in out
+    cov["model_runs"].append({"module": "OpForms.tla (table extracted from src/)", "cfg": "OpForms.cfg", "generated": gen, "distinct": dist, "wall_s": 0, "ok": ok})
+    cov.setdefault("extra", {})["forwarding_macro_invocations"] = p.stdout.strip()
+    if ok:
+        return
+    if "Invariant Inv is violated" not in out:
+        raise V.ToolError("OpForms run did not complete:\n" + out[-2000:])
+    rdir = os.path.join(ROOT, "replays", pid)
+    os.makedirs(rdir, exist_ok=True)
+    rp = os.path.join(rdir, "opforms-row.log")
+    k = out.find("Error: Invariant")
+    open(rp, "w").write(out[k:k + 4000])
+    violations.append(("a forwarding macro that may swap operands serves a non-commutative operator, or forwards under the wrong method name", rp))
